@@ -175,6 +175,8 @@ pub struct Probe {
     seed: u64,
     rd: u64,
     wr: u64,
+    /// `XZ` parameter: drive X/Z on the outputs when the simulation is four-state
+    xz: bool,
     params: Vec<(String, Value)>,
     buf: Vec<u64>,
 }
@@ -185,7 +187,7 @@ fn param_u64(ctx: &mut BuildCtx, name: &str) -> Result<u64> {
 
 impl Probe {
     fn drive(&mut self, ctx: &mut SimCtx, cycle: u64) {
-        let four = ctx.is_4state();
+        let four = ctx.is_4state() && self.xz;
         for (j, port) in self.outs.clone().into_iter().enumerate() {
             let api = (self.wr >> (4 * j)) & 0xf;
             let act = out_action(self.seed, cycle, j as u32, port.width(), four, api);
@@ -240,6 +242,7 @@ impl Component for Probe {
         let seed = param_u64(ctx, "SEED")?;
         let rd = param_u64(ctx, "RD")?;
         let wr = param_u64(ctx, "WR")?;
+        let xz = param_u64(ctx, "XZ")? != 0;
         let mut ins = vec![];
         for j in 0..ni {
             ins.push(ctx.input(&format!("i{j}"))?);
@@ -262,6 +265,7 @@ impl Component for Probe {
             seed,
             rd,
             wr,
+            xz,
             params,
             buf: vec![0; maxw + 1],
         })
